@@ -709,6 +709,49 @@ def oracle_wiring(case, out):
     return bad
 
 
+def oracle_identify(case, out):
+    """Identify tells the remote exactly the protocols `Litep2p::new` registered (main names) and the node's listen
+    addresses (with and without peer id) plus its public addresses."""
+    bad = []
+    cfgs, built = configs_of(case, out)
+    pubs, dialed = {}, False
+    sure = {}
+    for i, op in enumerate(case):
+        if i >= len(out) or out[i] == "skipped" or out[i].startswith("panic"):
+            break
+        t = op.split()
+        if t[0] in ("dial", "dialaddr", "request"):
+            dialed = True
+        if t[0] == "pubaddr" and len(t) == 3 and t[1].isdigit() and out[i].startswith("added"):
+            pubs.setdefault(int(t[1]), set()).add(f"pub{t[2]}/p{t[1]}")
+            if not dialed:
+                sure.setdefault(int(t[1]), set()).add(f"pub{t[2]}/p{t[1]}")
+        if t[0] != "events" or len(t) != 2 or not t[1].isdigit():
+            continue
+        for tok in parse_events(out[i]).get("id", []):
+            f = tok.split("|")
+            if len(f) != 3 or not f[0][1:].isdigit():
+                continue
+            j = int(f[0][1:])
+            if not built.get(j):
+                continue
+            regs = registrations(cfgs[j])
+            if regs == "panic":
+                continue
+            want = "+".join(sorted(r[0] for r in regs)) or "-"
+            if f[1] != want:
+                _v(bad, case, out, "identify-protocols", f"node {t[1]} was told by node {j}'s identify that it supports [{f[1]}]; node {j} "
+                   f"registered [{want}] (missing: {sorted(set(want.split('+')) - set(f[1].split('+')))}, "
+                   f"extra: {sorted(set(f[1].split('+')) - set(want.split('+')))})", i)
+            n = 0 if cfgs[j]["listen"] == "0" else len(cfgs[j]["listen"])
+            base = {f"{j}.{k}" for k in range(n)} | {f"{j}.{k}/p{j}" for k in range(n)}
+            got = set() if f[2] == "-" else set(f[2].split("+"))
+            if not (base | sure.get(j, set()) <= got <= base | pubs.get(j, set())):
+                _v(bad, case, out, "identify-addresses", f"node {t[1]} was told by node {j}'s identify that it listens on {sorted(got)}; "
+                   f"its listen addresses are {sorted(base)}, its public addresses {sorted(pubs.get(j, set()))}", i)
+    return bad
+
+
 class Trace:
     """Everything the oracles need, from the case and the implementation's observations only."""
 
@@ -1234,7 +1277,7 @@ ORACLES = {"C05": oracle_c05, "C06": oracle_c06, "C07": oracle_c07, "C08": oracl
 
 def oracle_for(pid, case, out):
     """The wiring oracle (common) plus the property's own behavioural oracle."""
-    res = oracle_wiring(case, out)
+    res = oracle_wiring(case, out) + oracle_identify(case, out)
     f = ORACLES.get(pid)
     if f:
         res += f(case, out)
@@ -1242,7 +1285,7 @@ def oracle_for(pid, case, out):
 
 
 def oracle(case, out):
-    res = oracle_wiring(case, out)
+    res = oracle_wiring(case, out) + oracle_identify(case, out)
     for f in ORACLES.values():
         res += f(case, out)
     return res
@@ -1269,3 +1312,70 @@ def nontrivial(case, out):
 
 def matches_known(k, v):
     return False
+
+
+# ------------------------------------------------------------------------------------------ owners
+
+TRUSTED_NODE = ("node area: real nodes built through ConfigBuilder/Litep2p::new on loopback TCP (adapter /repo/src/verif/node.rs, "
+                "checks/node.py, Model/Node/Wiring.lean, Driver/Node.lean); the registration record is read through guarded "
+                "read accessors (manager fields, ConnectionLimits::verif_config) and a thread-local log written by "
+                "TransportService::new from the constructed value; dynamic operations run in real time (quiescence = no event "
+                "for 250 ms), durations are judged with slack (idle close: not earlier than the configured timeout minus 120 ms "
+                "establishment skew, not later than +1.5 s)")
+ASSUME_NODE = ("node area: loopback addresses 127.0.0.1-127.0.0.4 are usable and port 1 is closed; a wiring defect that only shows "
+               "with transports other than TCP, with mDNS or with the system DNS configuration is outside (default feature set)")
+RULE_NODE = ("node area (real nodes): 30 random configurations per run (every protocol kind, sizes, fallback names, limits, keep-alive "
+             "values incl. the default, 0-3 listen addresses, known addresses of every kind, custom executor, name clashes, no "
+             "transport) whose registration records the wiring model must predict exactly, a malformed stream, and the property's own "
+             "real-time scenario family; a case is non-trivial if a node was built")
+
+
+NODE_THEOREMS = {
+    "C05": ["known_and_listen_addresses_installed", "registration_order_irrelevant"],
+    "C06": ["configured_limits_installed"],
+    "C08": ["identify_told_every_registered_protocol"],
+    "C09": ["configured_keep_alive_reaches_service", "keep_alive_flag_by_protocol_kind"],
+    "C11": ["notification_registered_with_own_codec_and_size"],
+    "C13": ["registered_with_own_codec_and_size"],
+}
+MANIFEST_NODE = (" Wiring (coverage round `node`): {thms} — over the wiring model Model/Node/Wiring.lean (a function from the "
+                 "ConfigBuilder calls to the per-protocol registration record, the limits, addresses and identify's protocol list, "
+                 "written from src/lib.rs and src/config.rs), tied to the real ConfigBuilder/Litep2p::new by the node area: real nodes "
+                 "built through the public API print their ACTUAL registration record, compared field by field with the model's, and "
+                 "run this property's scenarios over loopback TCP in real time under a node-level oracle.")
+
+
+def install(g):
+    """Called at the end of an owning plugin (`node.install(globals())`): pulls the node area into the plugin's
+    `extra_cases` / `oracle_extra` / `stats_extra`, and its constants into the plugin's CONST_TABLE."""
+    pid = g["ID"]
+    prev_cases, prev_oracle, prev_stats = g.get("extra_cases"), g.get("oracle_extra"), g.get("stats_extra")
+
+    def extra_cases(rng, tier):
+        if prev_cases:
+            yield from prev_cases(rng, tier)
+        yield "NODE", gen_cases(rng, tier, focus=pid)
+
+    def oracle_extra(xpid, case, out):
+        if xpid == "NODE":
+            return oracle_for(pid, case, out)
+        return prev_oracle(xpid, case, out) if prev_oracle else []
+
+    def stats_extra(xpid, case, out, acc):
+        if xpid == "NODE":
+            return stats(case, out, acc)
+        if prev_stats:
+            prev_stats(xpid, case, out, acc)
+
+    g["extra_cases"], g["oracle_extra"], g["stats_extra"] = extra_cases, oracle_extra, stats_extra
+    have = {r[0] for r in g.get("CONST_TABLE", [])}
+    g["CONST_TABLE"] = list(g.get("CONST_TABLE", [])) + [r for r in CONST_TABLE if r[0] not in have]
+    g["TRUSTED_BASE"] = list(g["TRUSTED_BASE"]) + [TRUSTED_NODE]
+    g["ASSUMPTIONS"] = list(g["ASSUMPTIONS"]) + [ASSUME_NODE]
+    g["RULE"] = g["RULE"] + "; " + RULE_NODE
+    thms = NODE_THEOREMS.get(pid, [])
+    g["THEOREMS"] = list(g["THEOREMS"]) + [t for t in thms if t not in g["THEOREMS"]]
+    m = dict(g["MANIFEST"])
+    m["text"] = m["text"] + MANIFEST_NODE.format(thms=", ".join(thms) if thms else "no theorem of its own (the wiring theorems live "
+                                                 "in Props/C05, C06, C08, C09, C11, C13)")
+    g["MANIFEST"] = m
